@@ -6,6 +6,32 @@
    never), any interleaving, spurious futex returns included.  A nested apply is another instance of the same model
    on its own record (the work function is opaque), so the statements hold at every nesting depth.
 
+   Client-side bound (valid_params, an explicit premise of every protocol theorem): iterations + da_thr_cnt < 2^64.  It is
+   NOT implied by dispatch_apply_f's own arithmetic for iterations in (2^64 - 2^31, 2^64): da_index is a size_t that every
+   participant increments once more after the last index, so for such n it would wrap and hand out index 0 again — after
+   more than 1.8e19 callouts have run, which no execution can reach and which therefore cannot be demonstrated on the
+   library.  C10_path_valid_params derives valid_params from the code's thread count for every iterations <= 2^64 - 2^31.
+
+   Nested applies (dispatch_apply called from inside a work function): (i) the inner call creates its own record, and the
+   protocol theorems are stated for one record with an opaque work function and arbitrary (n, T, caller), so
+   C10_each_index_once / C10_return_after_all / C10_record_freed_once / the termination theorems hold for the inner and
+   the outer record separately (an instance each; nothing in the model of one record depends on what a work function
+   does); (ii) what the code does differently when nested is the thread count and the path: C10_path_thread_count and
+   C10_path_valid_params are quantified over `nested` (dtc_apply_nesting), C10_nested_thread_count gives the division
+   (the whole nest asks for at most max-parallelism threads), the da_nested product / cap 65535, and
+   C10_nested_serial_fallback the serial path once the nest is saturated (then C10_serial_in_order); (iii) recorded rounds
+   of nested applies (depth 2 and 3) are replayed on the global model like any other (evidence: nested_rounds_replayed).
+   There is no model of two records at once; none is needed for the stated clauses.
+
+   Termination: C10_every_step_pays / C10_execution_bound (potential function Apply_measure.Phi, 3n + 6T + 5 initially):
+   every step of every participant, helper starts included, lowers Phi by at least 1, except a spurious return of
+   futex_wait (kernel returns without wake-up and without a change of the word: +2 at most).  The protocol has no
+   compare-and-swap loop (only fetch-add / fetch-sub / load), so no fairness assumption about CAS is involved; a caller
+   asleep in futex_wait is blocked, not spinning.  C10_nothing_enabled_all_done: when no participant that has entered can
+   step (a blocked sleeper cannot), dispatch_apply_f has returned with every index invoked once and finished —
+   whether or not any helper ever ran.  C10_terminates_without_helpers and C10_participants_never_blocked are the state
+   invariant and the one-step enabledness these rest on, not termination statements by themselves.
+
    The model's enabling condition for a helper ("a participant may enter invoke2 only while fewer than T participants
    have entered": each of the T-1 continuations pushed by _dispatch_apply_f is invoked at most once) is discharged by
    the root-queue model: Properties_C01_root.C01_root_pop_unique (the k-th dequeue returns the k-th pushed item, no item is
@@ -21,6 +47,7 @@
 From Coq Require Import ZArith Bool List.
 From Verif Require Import Word Conc Gen_consts Gen_fields Gen_apply Apply Apply_proofs ApplyR ApplyR_proofs.
 From Verif Require RootQ ApplyRoot_proofs.
+From Verif Require Import Apply_measure.
 Import ListNotations.
 Local Open Scope Z_scope.
 
@@ -43,7 +70,7 @@ Theorem C10_returned_implies_all_finished : forall n T c, valid_params n T -> fo
 Proof. exact returned_after_all. Qed.
 Print Assumptions C10_returned_implies_all_finished.
 
-(* -- termination does not depend on helpers that never run: whenever the caller waits for the event, either it has
+(* -- (state invariant used by the termination theorems below) whenever the caller waits for the event, either it has
       been signalled (and a sleeping caller has its futex_wake coming), or the signaller is at the signal, or a
       participant that is ALREADY inside invoke2 still owes its subtraction; such a participant always has a step -- *)
 Theorem C10_terminates_without_helpers : forall n T c, valid_params n T -> forall s,
@@ -99,14 +126,71 @@ Theorem C10_zero_returns_immediately : forall nested maxpar w ht os, apply_f_pat
 Proof. exact zero_returns. Qed.
 Print Assumptions C10_zero_returns_immediately.
 
-(* -- the thread count that dispatch_apply_f hands to the parallel / redirect path satisfies the hypotheses of the
-      protocol theorems (valid_params) and of the width theorem: 2 <= T <= min(iterations, max parallelism) -- *)
+(* -- the thread count that dispatch_apply_f hands to the parallel / redirect path: 2 <= T <= min(iterations, max
+      parallelism) (hypothesis of the width theorem); with the client-side bound iterations <= 2^64 - 2^31 it satisfies
+      valid_params, the premise of the protocol theorems -- *)
 Theorem C10_path_thread_count : forall iterations nested maxpar w ht os T,
   1 <= iterations < 18446744073709551616 -> 0 <= maxpar < 2147483648 -> 0 <= nested < 18446744073709551616 ->
   (apply_f_path iterations nested maxpar w ht os = PathParallel T \/ apply_f_path iterations nested maxpar w ht os = PathRedirect T) ->
   2 <= T <= iterations /\ T <= maxpar.
 Proof. exact path_thread_count. Qed.
 Print Assumptions C10_path_thread_count.
+
+Theorem C10_path_valid_params : forall iterations nested maxpar w ht os T,
+  1 <= iterations <= 18446744073709551616 - 2147483648 -> 0 <= maxpar < 2147483648 -> 0 <= nested < 18446744073709551616 ->
+  (apply_f_path iterations nested maxpar w ht os = PathParallel T \/ apply_f_path iterations nested maxpar w ht os = PathRedirect T) ->
+  valid_params iterations T.
+Proof. exact path_valid_params. Qed.
+Print Assumptions C10_path_valid_params.
+
+(* -- nested applies: division of the thread count, da_nested, serial fallback of a saturated nest (see the header) -- *)
+Theorem C10_nested_thread_count : forall maxpar nested iterations,
+  1 <= iterations < 18446744073709551616 -> 0 <= maxpar < 2147483648 -> 1 <= nested < 18446744073709551616 ->
+  let t := fst (apply_thr_cnt maxpar nested iterations) in
+  let nn := snd (apply_thr_cnt maxpar nested iterations) in
+  (maxpar <= nested -> t = 1) /\ (nested < maxpar -> 1 <= t /\ t * nested <= maxpar) /\
+  1 <= nn < 4294967296 /\
+  (nested < APPLY_MAX -> iterations < APPLY_MAX -> nn = nested * iterations) /\
+  (~ (nested < APPLY_MAX /\ iterations < APPLY_MAX) -> nn = APPLY_MAX).
+Proof. exact nested_thread_count. Qed.
+Print Assumptions C10_nested_thread_count.
+Theorem C10_nested_serial_fallback : forall iterations nested maxpar w ht os,
+  1 <= iterations < 18446744073709551616 -> 0 <= maxpar < 2147483648 -> 1 <= nested < 18446744073709551616 ->
+  maxpar <= nested -> apply_f_path iterations nested maxpar w ht os = PathSerial.
+Proof. exact nested_serial_fallback. Qed.
+Print Assumptions C10_nested_serial_fallback.
+
+(* -- termination (Proofs/Apply_measure.v): every step pays; bound on every execution from every reachable state, with
+      any helpers starting or never starting; the end of every maximal execution -- *)
+Theorem C10_every_step_pays : forall n T c, valid_params n T -> forall s t e s',
+  Inv2 n T c s -> gstep n T c s t e = Some s' -> Phi n T c s' + 1 <= Phi n T c s + (if spurious s t then 3 else 0).
+Proof. exact step_delta. Qed.
+Print Assumptions C10_every_step_pays.
+Theorem C10_execution_bound : forall n T c, valid_params n T -> forall s tr s',
+  reach n T c s -> grun n T c s tr = Some s' -> Z.of_nat (length tr) <= Phi n T c s + 3 * n_spurious n T c s tr.
+Proof. exact no_livelock. Qed.
+Print Assumptions C10_execution_bound.
+Theorem C10_execution_bound_no_spurious_futex_return : forall n T c, valid_params n T -> forall s tr s',
+  reach n T c s -> grun n T c s tr = Some s' -> n_spurious n T c s tr = 0 -> Z.of_nat (length tr) <= Phi n T c s.
+Proof. exact bound_without_spurious_futex_returns. Qed.
+Print Assumptions C10_execution_bound_no_spurious_futex_return.
+Theorem C10_whole_apply_bound : forall n T c, valid_params n T -> Phi n T c (init_state n T c) = 3 * n + 6 * T + 5.
+Proof. exact Phi_init. Qed.
+Print Assumptions C10_whole_apply_bound.
+Theorem C10_nothing_enabled_all_done : forall n T c, valid_params n T -> forall s, reach n T c s ->
+  (forall t, In t (parts s) -> forall e s', gstep n T c s t e = Some s' -> spurious s t = true) ->
+  pcs s c = PRet /\ returned s = true /\
+  (forall i, 0 <= i < n -> begun s i = 1 /\ ended s i = 1) /\ (forall i, begun s i = 1 -> 0 <= i < n) /\
+  (forall t, In t (parts s) -> t <> c -> pcs s t = PDone).
+Proof. exact nothing_enabled_all_done. Qed.
+Print Assumptions C10_nothing_enabled_all_done.
+(* ... and the record then: freed exactly once if all T participants ran, else still held by the unstarted continuations *)
+Theorem C10_nothing_enabled_record : forall n T c, valid_params n T -> forall s, reach n T c s ->
+  (forall t, In t (parts s) -> forall e s', gstep n T c s t e = Some s' -> spurious s t = true) ->
+  thrcnt s = T - Z.of_nat (length (parts s)) /\
+  (Z.of_nat (length (parts s)) = T -> freed s = 1) /\ (Z.of_nat (length (parts s)) < T -> freed s = 0) /\ uaf s = false.
+Proof. exact nothing_enabled_record. Qed.
+Print Assumptions C10_nothing_enabled_record.
 
 (* -- ties: the model's atomic sites and memory orders are the source's; the global model moves participants by the
       automaton that the recorded traces of the real library are replayed through -- *)
